@@ -25,7 +25,8 @@ def _case(draw, tier):
     heavy = draw(st.integers(0, 3)) == 0 and l <= 8 and m <= 5
     nodes = draw(progs.int_program(m, l, max_nodes=8 if tier == 'quick' else 20, heavy=heavy))
     sched = draw(progs.schedule(m, rich=draw(st.integers(0, 2)) == 0))  # a third of the cases under adversarial schedules
-    return dict(m=m, t=t, prss=prss, l=l, seed=draw(st.integers(0, 2**20)), nodes=nodes, sched=sched)
+    return dict(m=m, t=t, prss=prss, l=l, seed=draw(st.integers(0, 2**20)), nodes=nodes, sched=sched,
+                cli_t=draw(progs.cli_threshold(m, t)))
 
 
 def strategy(tier):
